@@ -355,6 +355,28 @@ def lw(ctx):
                     out.append(ok('LW4', key, 'audited exception: ' + LW2_EXCEPT[(fn.root or fname, W)], loc=fn.loc(b2), fn=fname))
                 else:
                     out.append(bad('LW4', key, 'a waker is taken out of %s and can be dropped without being woken: its owner stays asleep although it is no longer registered anywhere (%s)' % (W, slot['what']), loc=fn.loc(b2), fn=fname))
+        # --- LW5: a waker found in the slot is a live registration.  Either every notifier removes the waker it wakes (take), or every
+        # registration overwrites what is there.  A notifier that wakes the waker *in place* together with a sleeper that registers
+        # only into an empty slot leaves the sleeper parked on a spent (one-shot) waker for ever.
+        from .rules_locks import cg as _cg
+        g_ = _cg(ctx)
+        leaves, conditional = [], []
+        for fname, u in sorted(uses.items()):
+            fn = F.fn(fname)
+            inplace = [c for c in u.calls.get(W, []) if c[1] in ('as_ref', 'as_mut', 'as_deref', 'iter', 'clone')]
+            if inplace and any(s_.kind == 'wake' for s_ in g_.sites.get(fname, [])) and not any(c[1] in ('take',) for c in u.calls.get(W, [])) \
+                    and not any(val[0] == 'agg' and val[2] == OPTION_NONE for (_, _, val) in u.assigns.get(W, [])):
+                leaves.append(fname)
+            stores = [(bb, i) for (bb, i, val) in u.assigns.get(W, []) if val[0] == 'agg' and val[2] == OPTION_SOME]
+            tests = [c for c in u.calls.get(W, []) if c[1] in ('is_none', 'is_some')]
+            discr = [(bb, i) for (bb, i) in u.reads.get(W, []) if fn.blocks[bb]['stmts'][i]['rv']['k'] == 'discr']
+            if stores and (tests or discr):
+                conditional.append(fname)
+        if leaves and conditional:
+            out.append(bad('LW5', '%s|registration-live' % W, '%s wakes the waker in %s without removing it and %s registers only when the slot looks empty: after such a wake the slot holds a spent waker, the sleeper keeps it instead of registering, and the next notification wakes nobody (%s)' % (
+                ', '.join(short(x) for x in leaves), W, ', '.join(short(x) for x in conditional), slot['what']), fn=conditional[0]))
+        else:
+            out.append(ok('LW5', '%s|registration-live' % W, 'wakes remove the waker from the slot (in-place wakes: %d function(s)) or registrations overwrite (conditional registrations: %d function(s))' % (len(leaves), len(conditional))))
     floors = {'waker:reg': 3, 'waker:enable': 2, 'notify:reg': 1, 'notify:enable': 3, 'backpressure_release_notify:reg': 1,
               'backpressure_release_notify:enable': 2, 'notify_stream_closed:reg': 1, 'notify_stream_closed:enable': 2}
     for k, v in floors.items():
